@@ -52,6 +52,7 @@ def run(ctx: Ctx, rs: RuleSet, tier: str):
   _memo_rule(ctx, rs)
   _loud_rules(ctx, rs)
   _shape_rules(ctx, rs)
+  _leaf_type_rule(ctx, rs)
   _nan_rule(ctx, rs)
 
 
@@ -459,6 +460,39 @@ def _shape_rules(ctx: Ctx, rs: RuleSet):
   rs.check(ok, rule, bf.qualname,
            'the default flatten does not materialise defaults (unset stays '
            'unset)', ctx.loc(bf, bf.node))
+
+
+def _leaf_type_rule(ctx: Ctx, rs: RuleSet):
+  rule = 'TYPE.exact-leaf-test'
+  rs.declare(rule, 'a value is written as a bare JSON leaf only if its type '
+             'is exactly a JSON-representable type', 1)
+  lt = ctx.func(f'{SER}._is_leaf_type')
+  rets = [r for r in walk_function(lt.node) if isinstance(r, ast.Return)]
+  ok = bool(rets)
+  for r in rets:
+    v = r.value
+    good = (isinstance(v, ast.Compare) and len(v.ops) == 1 and isinstance(
+        v.ops[0], ast.In) and unparse(v.left) == lt.params[0] and isinstance(
+            v.comparators[0], (ast.Tuple, ast.Set, ast.List)))
+    ok = ok and good
+  sub = [c for c in walk_function(lt.node) if isinstance(c, ast.Call) and
+         isinstance(c.func, ast.Name) and c.func.id in ('issubclass',
+                                                         'isinstance')]
+  rs.check(ok and not sub, rule, lt.qualname,
+           'exact membership test on the type' if ok and not sub else
+           'the leaf test accepts subclasses (issubclass / isinstance): an '
+           'IntEnum, a str-enum or any user subclass of int / str / float is '
+           'written as a bare leaf and comes back as the base type - silent '
+           'type loss instead of a pyref or an UnserializableValueError',
+           ctx.loc(lt, lt.node))
+  # callers test type(value), not the value
+  f = ctx.func(f'{SER}.Serialization._serialize')
+  calls = [c for c in ctx.calls(f) if ctx.p.resolve(c.func, f) == lt.qualname]
+  rs.check(bool(calls) and all(
+      isinstance(c.args[0], ast.Call) and unparse(c.args[0].func) == 'type'
+      for c in calls), rule, f'{f.qualname}:leaf-test-argument',
+           'the leaf test is applied to type(value)', ctx.loc(f, f.node),
+           nontrivial=False)
 
 
 def _nan_rule(ctx: Ctx, rs: RuleSet):
